@@ -11,7 +11,7 @@ import time
 ROOT = os.path.dirname(os.path.dirname(os.path.abspath(__file__)))
 SPECS = os.path.join(ROOT, "specs")
 HARNESS = os.path.join(ROOT, "harness")
-EVID = os.path.join(ROOT, "evidence")
+EVID = os.environ.get("VERIF_EVIDENCE_DIR") or os.path.join(ROOT, "evidence")   # selftest/seed runs against a scratch tree write elsewhere
 REPLAYS = os.path.join(ROOT, ".work", "replays")
 KNOWN = os.path.join(ROOT, "known_findings.txt")
 REPO = os.environ.get("VERIF_REPO", "/repo")
